@@ -1,6 +1,6 @@
 """Server area: correspondence runs, trace monitors (executable property oracles) and known-finding classes
 for C01 C06 C08 C09 C10 C13 C14 C17 C18 C20."""
-import re, collections
+import re, collections, os
 import props
 from props import compare, merge_cov
 
@@ -144,11 +144,10 @@ def body_of(sid, spec):
 
 # ---------------------------------------------------------------- violations helper
 def viol(ctx, conn, kind, detail, known_class=None):
-    """record a violation unless it is in a listed known-finding class"""
+    """record a violation unless it is in a listed known-finding class whose recorded witness still fails"""
     if known_class:
         for k in ctx.known:
-            if k["cls"] == known_class:
-                ctx.known_lines.append("%s %s" % (k["id"], k["text"]))
+            if k["cls"] == known_class and (getattr(ctx, "witness_mode", False) or k["id"] in getattr(ctx, "active_known", ())):
                 ctx.known_hits[k["id"]] += 1
                 return
     ctx.violations.append(dict(kind=kind, detail=detail, known_class_checked=known_class, ops=script_of(conn)[:4000]))
@@ -635,8 +634,32 @@ def srv_compare(ctx, area, ops, impl, model):
     return cov, diffs
 
 
+def replay_witnesses(ctx, monitors):
+    """a listed finding suppresses its class only while its recorded witness still fails on the implementation"""
+    ctx.active_known = set()
+    for k in ctx.known:
+        path = os.path.join(ctx.root, k["witness"])
+        if not os.path.exists(path):
+            continue
+        wops = [l.rstrip("\n") for l in open(path)]
+        ops, impl, model = ctx.gen_run_compare(ctx.pid, "witness-" + k["id"], ctx.tier, ctx.seed, ctx.log, extra_ops=wops)
+        ctx.witness_mode = True
+        before = ctx.known_hits[k["id"]]
+        nviol = len(ctx.violations)
+        for c in split_conns(ops, impl):
+            for m in monitors:
+                m(ctx, c)
+        ctx.witness_mode = False
+        del ctx.violations[nviol:]      # other classes seen in a witness are judged in the main run
+        if ctx.known_hits[k["id"]] > before:
+            ctx.active_known.add(k["id"])
+            ctx.known_lines.append("%s %s" % (k["id"], k["text"]))
+        ctx.known_hits[k["id"]] = before
+
+
 def run_family(ctx, areas, monitors, rule):
     ctx.known_hits = collections.Counter()
+    replay_witnesses(ctx, monitors)
     covs = {}
     nconn = 0
     for area in areas:
